@@ -123,10 +123,11 @@ class Runner:
 
     def plans(self):
         variants = self.cfg.get("variants", [""])
+        mix = self.cfg.get("mix") or [(self.cfg["rig"], v) for v in variants]
         for i in range(self.runs):
             seed = (self.base_seed * 1000003 + i * 7919 + 17) % (2**53)
-            v = variants[i % len(variants)]
-            yield {"rig": self.cfg["rig"], "prop": self.prop, "variant": v, "seed": seed, "tier": self.tier,
+            rig, v = mix[i % len(mix)]
+            yield {"rig": rig, "prop": self.prop, "variant": v, "seed": seed, "tier": self.tier,
                    "log_level": self.cfg.get("log_level", "")}
 
     def one(self, plan):
@@ -469,17 +470,18 @@ def cmd_selftest(n_seeds=12, props=None, reps=3):
     for prop in props:
         cfg = PROPS[prop]
         variants = cfg.get("variants", [""])
+        mix = cfg.get("mix") or [(cfg["rig"], v) for v in variants]
         for i in range(n_seeds):
             seed = 424242 + i * 31 + (hash(prop) % 1000 if False else sum(map(ord, prop)))
             for rep, gmp in enumerate((["1", "4", "16"] * reps)[:reps * 3]):
-                jobs.append((prop, seed, variants[i % len(variants)], rep, gmp))
+                jobs.append((prop, seed, mix[i % len(mix)], rep, gmp))
     res = {}
 
     def one(j):
-        prop, seed, variant, rep, gmp = j
+        prop, seed, (rig, variant), rep, gmp = j
         cfg = PROPS[prop]
         wd = os.path.join(WORK, "selftest", "%s-%d-%d-%s" % (prop, seed, rep, gmp))
-        plan = {"rig": cfg["rig"], "prop": prop, "variant": variant, "seed": seed, "tier": "quick", "log_level": cfg.get("log_level", "")}
+        plan = {"rig": rig, "prop": prop, "variant": variant, "seed": seed, "tier": "quick", "log_level": cfg.get("log_level", "")}
         r = run_child(plan, wd, gomaxprocs=gmp)
         shutil.rmtree(wd, ignore_errors=True)
         return (prop, seed), (gmp, r.get("status"), r.get("log_hash"), json.dumps(sorted(sig_of(v) for v in (r.get("violations") or []))))
@@ -525,7 +527,7 @@ def main():
     if a.one is not None:
         build()
         cfg = PROPS[a.prop]
-        plan = {"rig": cfg["rig"], "prop": a.prop, "variant": os.environ.get("VERIF_VARIANT", cfg.get("variants", [""])[0]), "seed": a.one, "tier": a.tier, "log_level": cfg.get("log_level", "")}
+        plan = {"rig": os.environ.get("VERIF_RIG", cfg["rig"]), "prop": a.prop, "variant": os.environ.get("VERIF_VARIANT", cfg.get("variants", [""])[0]), "seed": a.one, "tier": a.tier, "log_level": cfg.get("log_level", "")}
         wd = os.path.join(WORK, "one-%s" % a.prop)
         shutil.rmtree(wd, ignore_errors=True)
         res = run_child(plan, wd, keeplog=True)
